@@ -138,6 +138,28 @@ class Inconclusive(Exception):
 # per-shard context
 
 
+def run_environment() -> dict:
+    """interpreter settings that differ from the default shard environment (hash seed 0, asserts on)"""
+    out = {}
+    if os.environ.get("PYTHONHASHSEED", "0") != "0":
+        out["PYTHONHASHSEED"] = os.environ["PYTHONHASHSEED"]
+    if sys.flags.optimize:
+        out["PYTHONOPTIMIZE"] = str(sys.flags.optimize)
+    return out
+
+
+def shard_environment(mod, seed: int, shard: int, tier: str) -> dict:
+    """shard 0 runs with hash seed 0; the others get hash seeds of their own (set and dict orders of str keys then differ between shards);
+    a property module may add settings per shard (shard_env), e.g. python -O for some"""
+    e = {"PYTHONHASHSEED": "0" if shard == 0 else str(1 + (seed * 977 + shard * 131) % 4000000)}
+    f = getattr(mod, "shard_env", None)
+    if f:
+        e.update(f(shard, tier) or {})
+    elif shard % 4 == 3:
+        e["PYTHONOPTIMIZE"] = "1"   # every fourth shard runs with assert statements stripped
+    return e
+
+
 class Ctx:
     def __init__(self, prop: str, tier: str, seed: int, shard: int, nshards: int, budget_s: float):
         self.prop = prop
@@ -236,7 +258,10 @@ class Ctx:
                 c = json.loads(canon(case))
             except Exception:
                 c = repr(case)[:2000]
-            self.violations.append({"key": key, "what": what[:600], "case": c})
+            envn = run_environment()
+            if envn and isinstance(c, dict):
+                c["_env"] = envn   # the interpreter settings this shard ran under (a replay re-creates them)
+            self.violations.append({"key": key, "what": what[:600] + (f" [interpreter: {envn}]" if envn else ""), "case": c})
 
     def require(self, counter: str, minimum: int = 1, why: str = ""):
         if self.counters.get(counter, 0) < minimum:
@@ -359,7 +384,7 @@ def run_parent(prop: str, tier: str) -> int:
                 p = subprocess.Popen(
                     [PY, "-X", "faulthandler", "-m", "jmon.run", prop, tier, "--shard", str(i), "--nshards",
                      str(nshards), "--out", out, "--budget", str(budget)],
-                    env=env, cwd=VERIF, stdout=log, stderr=subprocess.STDOUT)
+                    env={**env, **shard_environment(mod, seed, i, tier)}, cwd=VERIF, stdout=log, stderr=subprocess.STDOUT)
                 running.append((i, p, out, log, time.monotonic()))
             time.sleep(0.05)
             still = []
